@@ -199,7 +199,7 @@ func (e *Engine) libModel(st *State, fr *Frame, instr ssa.Instruction, name stri
 func (e *Engine) havocVarMap(st *State, fr *Frame, name string) {
 	for f := fr; f != nil; f = f.parent {
 		for i, fv := range f.fn.FreeVars {
-			if fv.Name() == name && i < len(f.bindings) {
+			if (fv.Name() == name || e.vname(f.fn, fv.Name()) == name) && i < len(f.bindings) {
 				if pt, ok := fv.Type().Underlying().(*types.Pointer); ok {
 					if mt, ok := pt.Elem().Underlying().(*types.Map); ok {
 						e.havocMapType(st, mt)
